@@ -6,7 +6,6 @@ import (
 	"go/token"
 	"go/types"
 
-	"golang.org/x/tools/go/packages"
 	"golang.org/x/tools/go/ssa"
 )
 
@@ -25,7 +24,7 @@ func runC13(c *Ctx) {
 	c.Rule("R13.2", 2, "only end-of-input becomes the end marker; other read errors are returned")
 	c.Rule("R13.3", 3, "the skipped terminals are exactly the layout terminals")
 	c.Rule("R13.4", 2, "file name and unmodified text are handed to the reader")
-	c.Rule("R13.5", 1, "no buffer-half boundary is ever reached: the half holds the whole text")
+	c.Rule("R13.5", 1, "no buffer boundary inside the text: the reader holds the whole text (in memory, never re-filled; or a half larger than the text)")
 
 	lp := c.Pkg("internal/ebnf/lexer")
 	if lp == nil {
@@ -85,31 +84,24 @@ func runC13(c *Ctx) {
 		checkEndMarker(c, pp, g)
 	}
 
-	// R13.4
-	if newFn := FuncDecl(lp, "", "New"); newFn != nil {
+	// R13.4 / R13.5: what the reader is given, and that it has no buffer boundary inside the text
+	if ri := findReader(c, "R13.4"); ri != nil {
 		info := lp.TypesInfo
-		found := false
-		ast.Inspect(newFn.Body, func(n ast.Node) bool {
-			call, ok := n.(*ast.CallExpr)
-			if !ok || len(call.Args) != 3 {
-				return true
-			}
-			if fo, ok := objOf(info, call.Fun).(*types.Func); ok && fo.Pkg() != nil && fo.Pkg().Path() == depPath+"/lexer/input" && fo.Name() == "New" {
-				found = true
-				checkHalfHoldsText(c, lp, newFn)
-				p0 := info.Defs[newFn.Type.Params.List[0].Names[0]]
-				p1 := info.Defs[newFn.Type.Params.List[1].Names[0]]
-				c.Check("R13.4", "the file name is passed through to the reader", call.Pos(), objOf(info, call.Args[0]) == p0, "lexer.New does not pass its own filename to input.New")
-				c.Check("R13.4", "the reader's source derives from the src parameter", call.Pos(), derivesFromObj(info, newFn, call.Args[1], p1), "the reader is not fed (a function of) the src parameter")
-				checkSourceUnmodified(c, "R13.4", lp, newFn)
-			}
-			return true
-		})
-		if !found {
-			c.Lost("R13.4", "call of input.New in lexer.New")
+		newFn, call := ri.newFn, ri.ctorAST
+		p0 := info.Defs[newFn.Type.Params.List[0].Names[0]]
+		p1 := info.Defs[newFn.Type.Params.List[1].Names[0]]
+		c.Check("R13.4", "the file name is passed through to the reader", call.Pos(), objOf(info, call.Args[0]) == p0, "lexer.New does not pass its own filename to the reader")
+		c.Check("R13.4", "the reader's source derives from the src parameter", call.Pos(), derivesFromObj(info, newFn, call.Args[1], p1), "the reader is not fed (a function of) the src parameter")
+		checkSourceUnmodified(c, "R13.4", ri)
+		switch ri.kind {
+		case "dep":
+			checkHalfHoldsText(c, ri)
+		case "mem":
+			// an in-memory reader: the whole text is one slice that is never re-filled, so there is no boundary to cross;
+			// the cursor invariant makes Retract stop at the beginning of the lexeme and every slice of the text in bounds
+			checkMemReader(c, "R13.5", ri)
+			checkMemReaderPositions(c, "R13.4", ri)
 		}
-	} else {
-		c.Lost("R13.4", "lexer.New")
 	}
 }
 
@@ -428,48 +420,19 @@ func sourceUnmodified(c *Ctx, fn *ssa.Function, readerArg ssa.Value) (bool, stri
 }
 
 
-// checkSourceUnmodified applies sourceUnmodified to the call of input.New in the scanner's constructor.
-func checkSourceUnmodified(c *Ctx, rule string, lp *packages.Package, newFn *ast.FuncDecl) {
-	fn := c.SSAFunc(lp, newFn)
-	if fn == nil {
-		c.Lost(rule, "SSA of lexer.New")
-		return
-	}
-	found := false
-	allCalls(fn, func(call ssa.CallInstruction) {
-		if staticCalleeName(call) == depPath+"/lexer/input.New" {
-			found = true
-			ok, why := sourceUnmodified(c, fn, call.Common().Args[1])
-			c.Check(rule, "the text handed to the reader is the caller's text with at most a constant suffix", call.Pos(), ok,
-				why+": characters can be dropped, added in front or rewritten before scanning, so lexemes, offsets, lines and columns no longer refer to the file",
-				"a specification that begins with blank lines or indentation")
-		}
-	})
-	if !found {
-		c.Lost(rule, "call of input.New in lexer.New")
-	}
+// checkSourceUnmodified applies sourceUnmodified to the text argument of the reader constructor in the scanner's constructor.
+func checkSourceUnmodified(c *Ctx, rule string, ri *readerInfo) {
+	ok, why := sourceUnmodified(c, ri.newSSA, ri.ctor.Call.Args[1])
+	c.Check(rule, "the text handed to the reader is the caller's text with at most a constant suffix", ri.ctor.Pos(), ok,
+		why+": characters can be dropped, added in front or rewritten before scanning, so lexemes, offsets, lines and columns no longer refer to the file",
+		"a specification that begins with blank lines or indentation")
 }
-
 
 // checkHalfHoldsText (R13.5): the dependency's two-buffer reader reloads a half whenever forward arrives at a half boundary,
 // also on re-arrival after Retract, so layout independence needs that a boundary is never reached: on every path the half
 // size given to the reader exceeds the length of the text it is given.
-func checkHalfHoldsText(c *Ctx, lp *packages.Package, newFn *ast.FuncDecl) {
-	fn := c.SSAFunc(lp, newFn)
-	if fn == nil {
-		c.Lost("R13.5", "SSA of lexer.New")
-		return
-	}
-	var call *ssa.Call
-	allCalls(fn, func(ci ssa.CallInstruction) {
-		if staticCalleeName(ci) == depPath+"/lexer/input.New" {
-			call, _ = ci.(*ssa.Call)
-		}
-	})
-	if call == nil {
-		c.Lost("R13.5", "call of input.New")
-		return
-	}
+func checkHalfHoldsText(c *Ctx, ri *readerInfo) {
+	call := ri.ctor
 	// the text: the byte slice wrapped by the reader argument
 	var text ssa.Value
 	var find func(v ssa.Value, d int)
